@@ -552,6 +552,20 @@ pub struct RUnit {
     pub g: Cfg,
     pub algo: Algo,
     pub cg: Codegen,
+    /// rendered with the built-in lexer (terminals are quoted literals, input is a string)
+    pub intern: bool,
+}
+
+/// glue for built-in-lexer units: the job input (one digit per token kind) is turned into the
+/// literals' text; entries 0.. separate the tokens by one space, entries 100.. by nothing
+/// (single-character literals need no separator)
+pub fn unit_glue_intern(g: &Cfg) -> String {
+    let mut s = String::from("pub fn run(entry: usize, input: &str) -> String {\n    let names = [\"a\", \"b\", \"c\", \"d\", \"e\", \"f\", \"g\", \"h\"];\n    let words: Vec<&str> = input.chars().map(|c| names[(c as u8 - b'0') as usize]).collect();\n    let text = if entry >= 100 { words.join(\"\") } else { words.join(\" \") };\n    match entry % 100 {\n");
+    for (e, n) in g.pubs.iter().enumerate() {
+        s.push_str(&format!("        {} => render({}Parser::new().parse(&text).map(|_| String::new())),\n", e, Cfg::nt_name(*n)));
+    }
+    s.push_str("        _ => panic!(\"no such entry\"),\n    }\n}\n");
+    s
 }
 
 pub fn unit_glue(g: &Cfg) -> String {
@@ -575,13 +589,13 @@ pub fn implr_batch(ctx: &mut Ctx, dir: &Path, units: &[RUnit], jobs: &[(usize, u
     let gdir = drv::scratch_sub(dir, "rgen");
     let mut us = vec![];
     for u in units {
-        let text = gram::render_unit_extern(&u.g, u.algo, u.cg);
+        let text = if u.intern { gram::render_unit_intern(&u.g, u.algo, u.cg) } else { gram::render_unit_extern(&u.g, u.algo, u.cg) };
         let out = drv::generate_in(&gdir, text.as_bytes(), &GenOpts::algo(u.algo));
         if !out.ok {
-            ctx.machinery(format!("implr: grammar accepted for table was rejected for {}: {}", u.cg.name(), u.g.describe()));
+            ctx.machinery(format!("implr: grammar accepted for table was rejected for {}{}: {}", u.cg.name(), if u.intern { " with the built-in lexer" } else { "" }, u.g.describe()));
             return None;
         }
-        us.push(implr::Unit { rs: out.rs.unwrap(), glue: unit_glue(&u.g) });
+        us.push(implr::Unit { rs: out.rs.unwrap(), glue: if u.intern { unit_glue_intern(&u.g) } else { unit_glue(&u.g) } });
     }
     let bdir = dir.join("rbuild");
     let _ = std::fs::remove_dir_all(&bdir);
@@ -830,6 +844,7 @@ fn conformance(ctx: &mut Ctx, prop: Prop, b: &Bounds, dir: &Path, conf: &[(Cfg, 
         let mut units = vec![];
         let mut jobs = vec![];
         let mut meta = vec![]; // per job: (chunk idx, cg, entry, input)
+        let mut imeta: Vec<(usize, usize, bool, Vec<u8>)> = vec![]; // built-in-lexer jobs: (chunk idx, entry, spaced, input), after the others
         let mut keep = vec![];
         for (gi, (g, algo)) in chunk.iter().enumerate() {
             // the grammar must be accepted under this algo; regenerate to know
@@ -844,7 +859,7 @@ fn conformance(ctx: &mut Ctx, prop: Prop, b: &Bounds, dir: &Path, conf: &[(Cfg, 
                     continue; // `!` is not supported by the ascent backend
                 }
                 let ui = units.len();
-                units.push(RUnit { g: g.clone(), algo: *algo, cg });
+                units.push(RUnit { g: g.clone(), algo: *algo, cg, intern: false });
                 for (entry, _) in g.pubs.iter().enumerate() {
                     for inp in lang::all_inputs(g.terms.max(1), b.n_r).into_iter().chain(ex.iter().filter(|x| x.len() > b.n_r).cloned()) {
                         jobs.push((ui, entry, inp.clone()));
@@ -856,8 +871,45 @@ fn conformance(ctx: &mut Ctx, prop: Prop, b: &Bounds, dir: &Path, conf: &[(Cfg, 
         if units.is_empty() {
             continue;
         }
+        // C01/C08: the same grammars with the built-in lexer (terminals are the quoted literals),
+        // fed the token texts with and without separating spaces
+        if matches!(prop, Prop::C01 | Prop::C08) {
+            for (ci, (g, algo, _, _)) in keep.iter().enumerate() {
+                if g.uses_error() || g.terms == 0 {
+                    continue;
+                }
+                let ui = units.len();
+                units.push(RUnit { g: g.clone(), algo: *algo, cg: Codegen::Table, intern: true });
+                for (entry, _) in g.pubs.iter().enumerate() {
+                    for inp in lang::all_inputs(g.terms, b.n_r) {
+                        for spaced in [true, false] {
+                            jobs.push((ui, if spaced { entry } else { entry + 100 }, inp.clone()));
+                            imeta.push((ci, entry, spaced, inp.clone()));
+                        }
+                    }
+                }
+            }
+        }
         let Some(res) = implr_batch(ctx, dir, &units, &jobs) else { continue };
         ctx.add("implr_units", units.len() as u64);
+        for ((ci, entry, spaced, inp), o) in imeta.iter().zip(res[meta.len()..].iter()) {
+            let (g, algo, _, _) = &keep[*ci];
+            let start = g.pubs[*entry];
+            let lang = Lang::new(g, b.n_r + 1);
+            ctx.count("implr_parses");
+            ctx.count("implr_builtin_lexer_parses");
+            if o.kind == "Uncompiled" {
+                continue;
+            }
+            let member = lang.accepts(start, lang::from_slice(inp));
+            let case = json!({"cfg": g, "grammar": gram::render_unit_intern(g, *algo, Codegen::Table), "algo": algo.name(), "codegen": "table", "lexer": "intern", "engine": "implr", "start": start, "input": inp, "spaced": spaced, "observed": o});
+            if o.is_abnormal() {
+                ctx.violation(&format!("builtin-lexer-{}", o.kind.to_lowercase()), format!("{} [{} built-in lexer] start N{} input {:?}: {}", g.describe(), algo.name(), start, inp, o.short()), case);
+            } else if member != o.is_ok() && prop == Prop::C01 {
+                let class = if member { "builtin-lexer-rejects-sentence" } else { "builtin-lexer-accepts-nonsentence" };
+                ctx.violation(class, format!("{} [{} built-in lexer, tokens {}] start N{} input {:?}: in language = {}, parser says {}", g.describe(), algo.name(), if *spaced { "separated by spaces" } else { "adjacent" }, start, inp, member, o.short()), case);
+            }
+        }
         for ((ci, cg, entry, inp), o) in meta.iter().zip(res.iter()) {
             let (g, algo, l, _) = &keep[*ci];
             let start = g.pubs[*entry];
@@ -916,7 +968,7 @@ fn confirm(ctx: &mut Ctx, _prop: Prop, dir: &Path, pending: Vec<PendingConfirm>)
             continue;
         }
         let ui = units.len();
-        units.push(RUnit { g: p.g.clone(), algo: p.algo, cg: Codegen::Table });
+        units.push(RUnit { g: p.g.clone(), algo: p.algo, cg: Codegen::Table, intern: false });
         jobs.push((ui, p.entry, p.input.clone()));
     }
     let Some(res) = implr_batch(ctx, dir, &units, &jobs) else {
@@ -951,8 +1003,8 @@ fn replay(ctx: &mut Ctx, prop: Prop, case: &Value, dir: &Path) {
     let entry = g.pubs.iter().position(|p| *p == start).unwrap_or(0);
     let lang = Lang::new(&g, input.len() + 2);
     // always replay on the compiled parser
-    let units = vec![RUnit { g: g.clone(), algo, cg }];
-    let jobs = vec![(0usize, entry, input.clone())];
+    let units = vec![RUnit { g: g.clone(), algo, cg, intern: case["lexer"].as_str() == Some("intern") }];
+    let jobs = vec![(0usize, if case["spaced"].as_bool() == Some(false) { entry + 100 } else { entry }, input.clone())];
     let Some(res) = implr_batch(ctx, dir, &units, &jobs) else { return };
     let o = &res[0];
     println!("replay on compiled parser: {}", o.short());
